@@ -114,6 +114,25 @@ func ruleRollbackTx(r *Report, rule string) {
 		}
 		return true
 	})
+	// the flag may be handed on by plain copies (`found = seen`, a helper's result)
+	for changed := true; changed; {
+		changed = false
+		ast.Inspect(fi.Decl.Body, func(x ast.Node) bool {
+			as, ok := x.(*ast.AssignStmt)
+			if !ok || len(as.Lhs) != len(as.Rhs) {
+				return true
+			}
+			for k := range as.Rhs {
+				if src := objOf(info, as.Rhs[k]); src != nil && targetSeenFlags[src] {
+					if dst := objOf(info, as.Lhs[k]); dst != nil && !targetSeenFlags[dst] {
+						targetSeenFlags[dst] = true
+						changed = true
+					}
+				}
+			}
+			return true
+		})
+	}
 	// candidates: newest first, stop after the target
 	okScan := false
 	ast.Inspect(fi.Decl.Body, func(x ast.Node) bool {
@@ -224,7 +243,7 @@ func ruleLatestProtected(r *Report, rule string) {
 		if sel, isSel := ast.Unparen(ix.Index).(*ast.SelectorExpr); isSel && sel.Sel.Name == "epoch" && isLatest(sel.X) {
 			// only guard: "not already in the map"
 			facts := g.RawGuardsOf(as)
-			ok = len(facts) == 1 && !facts[0].Truth
+			ok = ok || (len(facts) == 1 && !facts[0].Truth)
 		}
 		return true
 	})
